@@ -513,7 +513,7 @@ func c05Arith(r *run.Run) {
 
 func c05Stems(r *run.Run) {
 	r.Explore(explore.Config{Name: "C05.stems-masks-width"},
-		"hstem/vstem/hstemhm/vstemhm/implicit vstems before hintmask and cntrmask with 0..9 stems per direction (mask length 1 vs 2 bytes), width present/absent before each possible first operator, mask after the first moveto",
+		"hstem/vstem/hstemhm/vstemhm/implicit vstems before hintmask and cntrmask with 0..9 stems per direction (mask length 1 vs 2 bytes) in one or two operators per direction, width present/absent before each possible first operator, mask after the first moveto",
 		func(c *explore.Ctx) {
 			nh := c.Choose(10, "hstems")
 			nv := c.Choose(10, "vstems")
@@ -530,15 +530,34 @@ func c05Stems(r *run.Run) {
 					p.nums(base+float64(i), 20+0.5*float64(i%2))
 				}
 			}
-			if nh > 0 {
-				stemArgs(nh, 10)
-				if hm {
-					p.op(oHstemhm)
-				} else {
-					p.op(oHstem)
-				}
+			// the stems of one direction may come in several operators (mandatory above 24 stems: the stack
+			// holds 48 numbers); every operator starts again relative to 0
+			split := c.Bool("two stem operators per direction")
+			hop, vop := oHstem, oVstem
+			if hm {
+				hop, vop = oHstemhm, oVstemhm
 			}
-			if nv > 0 {
+			if split && nh >= 2 {
+				stemArgs(nh/2, 10)
+				p.op(hop)
+				nh0 := nh / 2
+				stemArgs(nh-nh0, 300)
+				p.op(hop)
+			} else if nh > 0 {
+				stemArgs(nh, 10)
+				p.op(hop)
+			}
+			if split && nv >= 2 {
+				stemArgs(nv/2, -50)
+				p.op(vop)
+				nv0 := nv / 2
+				stemArgs(nv-nv0, 400)
+				if implicit && (mask == 1 || mask == 2) {
+					// operands stay on the stack for the mask operator
+				} else {
+					p.op(vop)
+				}
+			} else if nv > 0 {
 				stemArgs(nv, -50)
 				if implicit && (mask == 1 || mask == 2) {
 					// operands stay on the stack for the mask operator
@@ -720,7 +739,7 @@ func c05Faults(r *run.Run) {
 		return ps
 	}()
 	r.Explore(explore.Config{Name: "C05.faults"},
-		"single faults in 4 well-formed base programs: truncation at every byte, every byte deleted, every operator byte replaced by each other operator, 49 operands, stack underflow for every operator on an empty stack, every drawing operator in every operand-count form before the first moveto: the library must reject whatever the specification rejects, and agree on whatever it accepts",
+		"single faults in 4 well-formed base programs: truncation at every byte, every byte deleted, every operator byte replaced by each other operator, 46..50 operands followed by 0..2 dup operators (the stack limit reached by literals and by a pushing operator), stack underflow for every operator on an empty stack, every drawing operator in every operand-count form before the first moveto: the library must reject whatever the specification rejects, and agree on whatever it accepts",
 		func(c *explore.Ctx) {
 			switch c.Choose(5, "fault family") {
 			case 0:
@@ -776,17 +795,24 @@ func c05Faults(r *run.Run) {
 				c.Sample(func() any { return p.desc })
 				t2Compare(c, "drawing before the first moveto", t2Case{code: p.code}, p.desc)
 			case 3:
-				n := explore.Pick(c, "operands", 47, 48, 49, 50)
+				// the 48-entry argument stack filled by literal operands, or by an operator that pushes (dup;
+				// random is left out: its value is not defined) on top of 46..48 operands
+				n := explore.Pick(c, "operands", 46, 47, 48, 49, 50)
+				pushers := c.Choose(3, "dup operators behind the operands")
 				p := (&t2prog{}).nums(1, 1).op(oRmoveto)
 				for i := 0; i < n; i++ {
 					p.num(float64(i%5 + 1))
 				}
-				if n%2 == 1 {
-					p.op(1218) // drop one to make the count even again
+				for i := 0; i < pushers; i++ {
+					p.op(1227) // dup
+				}
+				for k := n + pushers; k > 48 || k%2 == 1; k-- {
+					p.op(1218) // drop: back to an even count within the limit
 				}
 				p.op(oRlineto).op(oEndchar)
-				c.Sample(func() any { return fmt.Sprintf("%d operands then rlineto", n) })
-				t2Compare(c, "stack depth", t2Case{code: p.code}, fmt.Sprintf("%d operands then rlineto", n))
+				desc := fmt.Sprintf("%d operands, %d x dup, then rlineto", n, pushers)
+				c.Sample(func() any { return desc })
+				t2Compare(c, "stack depth", t2Case{code: p.code}, desc)
 			}
 		})
 }
